@@ -27,7 +27,7 @@ pub fn property() -> Property {
 fn gens(tier: Tier) -> Vec<Gen> {
     vec![
         Gen { name: "status-codes", count: 100 * 2, exhaustive: true, run: run_status_codes },
-        Gen { name: "non-ascii-location", count: (5 * 4) as u64, exhaustive: true, run: run_non_ascii_location },
+        Gen { name: "non-ascii-location", count: (5 * 11) as u64, exhaustive: true, run: run_non_ascii_location },
         Gen { name: "non-http-location-via-proxy", count: (5 * 4 * 2) as u64, exhaustive: true, run: run_non_http_via_proxy },
         Gen { name: "sequential-server", count: 6, exhaustive: true, run: run_sequential_server },
         Gen { name: "non-http-location-to-a-live-port", count: (5 * 5) as u64, exhaustive: true, run: run_non_http_live_port },
@@ -599,12 +599,27 @@ fn run_non_http_live_port(ctx: &mut Ctx, _rng: &mut Rng, index: u64) {
 /// (`/caf%C3%A9`); it is never re-coded into something the server did not send
 fn run_non_ascii_location(ctx: &mut Ctx, _rng: &mut Rng, index: u64) {
     let status = [301u16, 302, 303, 307, 308][(index % 5) as usize];
-    let (loc, want_target): (&[u8], &str) = [
-        (&b"/caf\xc3\xa9"[..], "/caf%C3%A9"),
-        (&b"/p?q=\xc3\xbc&r=1"[..], "/p?q=%C3%BC&r=1"),
-        (&b"../\xe6\x97\xa5\xe6\x9c\xac/x"[..], "/%E6%97%A5%E6%9C%AC/x"),
-        (&b"http://a.test/\xf0\x9f\x98\x80"[..], "/%F0%9F%98%80"),
-    ][((index / 5) % 4) as usize];
+    let pct = |s: &str| -> String { s.bytes().map(|b| if b >= 0x80 { format!("%{b:02X}") } else { (b as char).to_string() }).collect() };
+    let mut table: Vec<(Vec<u8>, String)> = vec![
+        (b"/caf\xc3\xa9".to_vec(), "/caf%C3%A9".into()),
+        (b"/p?q=\xc3\xbc&r=1".to_vec(), "/p?q=%C3%BC&r=1".into()),
+        (b"../\xe6\x97\xa5\xe6\x9c\xac/x".to_vec(), "/%E6%97%A5%E6%9C%AC/x".into()),
+        (b"http://a.test/\xf0\x9f\x98\x80".to_vec(), "/%F0%9F%98%80".into()),
+        // blanks that are not ASCII are data, not padding: they are neither trimmed nor do they
+        // turn a relative reference into another kind of reference
+        ("next\u{a0}".as_bytes().to_vec(), "/dir/next%C2%A0".into()),
+        ("\u{3000}/top".as_bytes().to_vec(), "/dir/%E3%80%80/top".into()),
+        ("\u{2003}".as_bytes().to_vec(), "/dir/%E2%80%83".into()),
+    ];
+    // long references with multi-byte characters at every alignment (byte 64, 256 ... fall inside one)
+    for k in 0..3 {
+        let tail = format!("{}{}", "a".repeat(k), "\u{e9}".repeat(70));
+        table.push((format!("/{tail}").into_bytes(), format!("/{}", pct(&tail))));
+    }
+    let long = format!("{}?q={}", "\u{65e5}".repeat(100), "\u{fc}".repeat(30));
+    table.push((format!("/{long}").into_bytes(), format!("/{}", pct(&long))));
+    let (loc, want_target) = table[((index / 5) as usize) % table.len()].clone();
+    let (loc, want_target): (&[u8], &str) = (&loc, &want_target);
     let loc2 = loc.to_vec();
     let world = World::install(move |_, idx, _| {
         let resp = if idx == 0 {
